@@ -213,6 +213,60 @@ Theorem diss_direction_mirror : forall depth g ds D' D,
   sin (diss_direction depth g D' * PI / 180) = sin (- diss_direction depth g D * PI / 180).
 Proof. exact diss_direction_mirror. Qed.
 
+(* ---------------- the same conclusions as equalities modulo 360 ---------------- *)
+(* a direction in [0,360) with the cosine and sine of x degrees IS x modulo 360 (Python's %) *)
+Theorem direction_is_mod360 : forall d' x, 0 <= d' < 360 ->
+  cos (d' * PI / 180) = cos (x * PI / 180) -> sin (d' * PI / 180) = sin (x * PI / 180) ->
+  d' = pymod x 360.
+Proof. exact dir_is_pymod. Qed.
+
+Theorem stress_direction_rot_mod360 : forall p w depth z0 g x0 E th0 ds k,
+  uniform_dirs g th0 ds -> (k < ndir g)%nat -> well_shaped g E ->
+  friction_velocity p w z0 <> 0 ->
+  let v := total_stress_vec p w depth z0 g x0 E in
+  (fst v <> 0 \/ snd v <> 0) ->
+  exists m d d',
+    total_stress_point p w depth z0 g x0 E = (m, Some d) /\
+    total_stress_point p (rot_wind w k (ndir g)) depth z0 g x0 (rot_field k E) = (m, Some d') /\
+    d' = pymod (d + INR k * (360 / INR (ndir g))) 360.
+Proof. exact total_stress_direction_rot_mod360. Qed.
+
+Theorem stress_direction_mirror_mod360 : forall p w depth z0 g x0 E ds,
+  uniform_dirs g 0 ds -> (0 < ndir g)%nat -> well_shaped g E ->
+  friction_velocity p w z0 <> 0 ->
+  let v := total_stress_vec p w depth z0 g x0 E in
+  (fst v <> 0 \/ snd v <> 0) ->
+  exists m d d',
+    total_stress_point p w depth z0 g x0 E = (m, Some d) /\
+    total_stress_point p (mir_wind w) depth z0 g x0 (mir_field E) = (m, Some d') /\
+    d' = pymod (- d) 360.
+Proof. exact total_stress_direction_mirror_mod360. Qed.
+
+Theorem tail_stress_mag_dir_rot : forall p w z0 g x0 E th0 ds k,
+  uniform_dirs g th0 ds -> (k < ndir g)%nat -> well_shaped g E ->
+  let t := tail_stress_wam p w z0 g x0 E in
+  (fst t <> 0 \/ snd t <> 0) ->
+  let r := tail_stress_mag_dir t in
+  let r' := tail_stress_mag_dir (tail_stress_wam p (rot_wind w k (ndir g)) z0 g x0 (rot_field k E)) in
+  fst r' = fst r /\ snd r' = pymod (snd r + INR k * (360 / INR (ndir g))) 360.
+Proof. exact tail_stress_mag_dir_rot. Qed.
+
+Theorem diss_direction_rot_mod360 : forall depth g th0 ds k D' D,
+  uniform_dirs g th0 ds -> (k < ndir g)%nat ->
+  (forall i j, (i < nfreq g)%nat -> (j < ndir g)%nat -> fnth D' i j = fnth D i (ridx (ndir g) j k)) ->
+  let v := diss_k_vector g (wavenumbers GRAV depth (g_w g)) D in
+  (fst v <> 0 \/ snd v <> 0) ->
+  diss_direction depth g D' = pymod (diss_direction depth g D + INR k * (360 / INR (ndir g))) 360.
+Proof. exact diss_direction_rot_mod360. Qed.
+
+Theorem diss_direction_mirror_mod360 : forall depth g ds D' D,
+  uniform_dirs g 0 ds -> (0 < ndir g)%nat ->
+  (forall i j, (i < nfreq g)%nat -> (j < ndir g)%nat -> fnth D' i j = fnth D i (midx (ndir g) j)) ->
+  let v := diss_k_vector g (wavenumbers GRAV depth (g_w g)) D in
+  (fst v <> 0 \/ snd v <> 0) ->
+  diss_direction depth g D' = pymod (- diss_direction depth g D) 360.
+Proof. exact diss_direction_mirror_mod360. Qed.
+
 (* ---------------- the premises are satisfiable ---------------- *)
 Example uniform_grid_example :
   let g := mkgrid [1; 2] [ang 0 2 0; ang 0 2 1] [1/10; 1/10] [180; 180] in
